@@ -894,11 +894,27 @@ def lift_one(d, repo, canary=False, rename_suffix=None):
     # R9 tail binding: `EXPR }` (the function's tail expression, starting at the anchor) becomes
     # `let verif_ret = EXPR; <ghost lines> verif_ret }` so that ghost hints can mention the returned value
     for kv, lines in d.tails:
-        at = unesc(kv['at'])
-        offs = find_code_text(body.s, body.k, at)
-        if len(offs) != 1:
-            raise LiftError("%s: tail anchor %r found %d times" % (info['name'], at, len(offs)))
-        p = offs[0]
+        if 'whole' in kv.get('_', []):
+            # structural anchor: the body is one single expression (no top-level `;`); it is bound as a whole
+            at = '<whole body>'
+            p = 1
+            while body.s[p].isspace() or body.k[p] == COMMENT:
+                p += 1
+            depth = 0
+            for j in range(p, len(body.s) - 1):
+                if body.k[j] == CODE:
+                    if body.s[j] in OPEN:
+                        depth += 1
+                    elif body.s[j] in CLOSE:
+                        depth -= 1
+                    elif body.s[j] == ';' and depth == 0:
+                        raise LiftError("%s: tail whole: the body is not a single expression" % info['name'])
+        else:
+            at = unesc(kv['at'])
+            offs = find_code_text(body.s, body.k, at)
+            if len(offs) != 1:
+                raise LiftError("%s: tail anchor %r found %d times" % (info['name'], at, len(offs)))
+            p = offs[0]
         endb = len(body.s) - 1
         expr_end = endb
         while expr_end > p and body.s[expr_end - 1].isspace():
